@@ -23,8 +23,8 @@ object from its construction on, against the manager's connection table:
 A connection the client has lost may or may not have been noticed by the manager (`noticed`): an unnoticed one
 stays in the table with its id and its subscriptions until the manager reads EOF on it (`mgrNotices`) — this is
 where a stale dynamic id or a stale subscription set would do harm.  `connectLate` is a handshake the manager answers
-only after the client's 3 s are over (`AcknowledgementTimeout`): the code leaves the object "connected" and un-reset
-(open finding C02-F4), so the theorems are about histories in which every handshake is `timely`.
+only after the client's 3 s are over (`AcknowledgementTimeout`): since fix 5d9f32d (finding C02-F4) the object ends
+disconnected, so it is an operation like the others and the theorems hold for every history.
 
 Everything is executable; exceptions are explicit statuses.
 -/
@@ -141,10 +141,6 @@ inductive LOp where
   | connectLate (allow : Bool)                      -- `connect()` whose handshake the manager answers too late (> 3 s)
 deriving Repr, DecidableEq, Inhabited
 
-/-- every handshake of the history is answered within the 3 s `_wait_for_acknowledgement` allows -/
-def LOp.timely : LOp → Bool
-  | .connectLate _ => false
-  | _ => true
 
 def okPhase (cl : Cl) : LPhase := ⟨cl, [], .ok, none, none⟩
 def ncPhase (cl : Cl) : LPhase := ⟨cl, [], .notConnected, none, none⟩
@@ -180,14 +176,15 @@ def connectOp (cfg : IdCfg) (s : LSys) (allow : Bool) : LPhase × Mgr :=
   handshake cfg d.1.cl d.2 allow
 
 /-- `Client.connect(...)` when the manager gets to the new connection only after `_wait_for_acknowledgement` has given
-up: `AcknowledgementTimeout` escapes from `connect()`.  `_socket_connect` has set `_connected = True`, `_connect_helper`
-has reset `_module_id` (dynamic) — and neither is undone; the reset of the three subscription fields, which follows
-the ACK, never happens.  The manager then processes the CONNECT_V2 as usual (open finding C02-F4: the object is left
-"connected" with the OLD sets — and, dynamic, with `module_id == 0` — against an empty record at the manager). -/
+up: `AcknowledgementTimeout` escapes from `connect()`.  `_connect_helper` has reset `_module_id` (dynamic) and sent the
+handshake; the failed wait closes the socket and sets `_connected = False` (fix 5d9f32d for finding C02-F4: before it the
+object stayed "connected" with the old sets); the reset of the three subscription fields, which follows the ACK,
+does not happen — harmless on a disconnected client, the next accepted connect does it.  The manager then processes
+the CONNECT_V2 as usual and keeps the record until it notices that the connection is dead. -/
 def connectLateOp (cfg : IdCfg) (s : LSys) (allow : Bool) : LPhase × Mgr :=
   let d := if s.cl.connected then disconnectOp s else (okPhase s.cl, s.mg)
   let a := d.2.accept true
-  let cl1 : Cl := { d.1.cl with conn := a.2, connected := true, modId := if d.1.cl.created == 0 then 0 else d.1.cl.modId }
+  let cl1 : Cl := { d.1.cl with conn := a.2, connected := false, modId := if d.1.cl.created == 0 then 0 else d.1.cl.modId }
   let r := a.1.hello cfg a.2 cl1.modId allow
   (⟨cl1, [], .ackTimeout, some cl1.modId, r.2⟩, r.1)
 
